@@ -9,6 +9,8 @@ CLAUSES = {
     "C13": ("panic-",),
     "C01": ("published-vaa-", "stored-", "published-names-other-set"),
     "C04": ("signed-digest-differs-from-message",),
+    "C07": ("complete-vaa-rejected-on-chain",),
+    "C06": ("stored-vaa-not-quorum-verifiable",),
     "C02": ("signed-digest-differs-from-message", "signed-under-foreign-address", "published-without-local-observation", "published-twice", "not-published-at-quorum",
             "governance-emitter-signed", "signed-without-guardian-set"),
     "C14": ("pending-entry-discarded-early", "no-retry-when-due", "retry-too-early", "unobserved-entry-not-expired",
